@@ -495,6 +495,8 @@ class TemplateASTTransformer(ASTTransformer):
     def _extract_names(self, node):
         names = set()
         if hasattr(node, 'args'):
+            for arg in getattr(node, 'posonlyargs', ()):
+                self._process(names, arg)
             for arg in node.args:
                 self._process(names, arg)
             if hasattr(node, 'kwonlyargs'):
